@@ -1,6 +1,72 @@
-"""Replay search: native small-scope search on a scratch copy of /repo for an input that
-falsifies the executable twin of a property.  Best effort; never changes a verdict."""
+#!/usr/bin/env python3
+"""Native executable twins (replay/twin.rs) run on a scratch copy of /repo.
+
+Two uses, both BOUNDED and never counted as proof:
+  * replay search after a failed obligation: find a concrete failing input on the real code;
+  * bounded stand-ins for the assumed contracts of code that stays outside the verifier.
+
+The scratch copy and its build output live under a fresh temporary directory and are removed
+before this module returns.
+"""
+import os, sys, re, json, shutil, subprocess, tempfile, time
+
+HERE = os.path.dirname(os.path.abspath(__file__))
+VERIF = os.path.dirname(HERE)
 
 
-def search(prop, repo, violations):
-    return {'found': False, 'note': 'no executable twin registered for %s yet' % prop}
+def run_twins(repo, props, tier='quick', timeout=900):
+    t0 = time.time()
+    tmp = tempfile.mkdtemp(prefix='verif_twin_')
+    try:
+        dst = os.path.join(tmp, 'repo')
+        shutil.copytree(repo, dst, ignore=shutil.ignore_patterns('target', '.git'))
+        os.makedirs(os.path.join(dst, 'tests'), exist_ok=True)
+        shutil.copy(os.path.join(VERIF, 'replay', 'twin.rs'), os.path.join(dst, 'tests', 'verif_twin.rs'))
+        env = dict(os.environ)
+        env.update({'CARGO_TARGET_DIR': os.path.join(tmp, 'target'), 'VERIF_TWIN': ','.join(props), 'VERIF_TIER': tier,
+                    'CARGO_NET_OFFLINE': 'true', 'RUST_BACKTRACE': '0'})
+        cmd = ['cargo', 'test', '--offline', '--test', 'verif_twin', '--', '--nocapture']
+        try:
+            p = subprocess.run(cmd, cwd=dst, env=env, stdout=subprocess.PIPE, stderr=subprocess.STDOUT, text=True, timeout=timeout)
+            out = p.stdout
+            rc = p.returncode
+        except subprocess.TimeoutExpired as e:
+            out = (e.stdout or '') if isinstance(e.stdout, str) else ''
+            rc = -9
+        twins = []
+        fails = []
+        for line in out.splitlines():
+            m = re.match(r'TWIN (\S+) (\S+) evaluations=(\d+) distinct=(\d+) ms=(\d+)', line)
+            if m:
+                twins.append({'properties': m.group(1).split('+'), 'name': m.group(2), 'evaluations': int(m.group(3)), 'distinct': int(m.group(4)), 'ms': int(m.group(5))})
+            m = re.match(r'TWIN-FAIL (\S+) (\S+) (.*)', line)
+            if m:
+                fails.append({'properties': m.group(1).split('+'), 'name': m.group(2), 'failing_input': m.group(3)})
+        built = ('TWIN' in out) or rc == 0
+        return {'cmd': 'VERIF_TWIN=%s VERIF_TIER=%s cargo test --offline --test verif_twin -- --nocapture  (scratch copy of %s, tests/verif_twin.rs = /verif/replay/twin.rs)' % (','.join(props), tier, repo),
+                'rc': rc, 'built': built, 'twins': twins, 'fails': fails, 'wall_s': round(time.time() - t0, 1),
+                'tail': '' if built else out[-1500:]}
+    finally:
+        shutil.rmtree(tmp, ignore_errors=True)
+
+
+def search(prop, repo, violations, tier='quick'):
+    """replay search for a failed obligation of `prop`"""
+    res = run_twins(repo, [prop], tier)
+    if not res['built']:
+        return {'found': False, 'note': 'twin harness did not build against this tree (public API changed?)', 'tail': res['tail']}
+    if res['fails']:
+        f = res['fails'][0]
+        return {'found': True, 'twin': f['name'], 'failing_input': f['failing_input'], 'reproduce': res['cmd']}
+    return {'found': False, 'note': 'small-scope search over the public API found no failing input',
+            'searched': [{'twin': t['name'], 'evaluations': t['evaluations']} for t in res['twins']], 'reproduce': res['cmd']}
+
+
+if __name__ == '__main__':
+    if len(sys.argv) >= 3 and sys.argv[1] == '--show':
+        print(open(sys.argv[2]).read())
+        sys.exit(0)
+    props = sys.argv[1].split(',') if len(sys.argv) > 1 else ['ALL']
+    r = run_twins('/repo', props, os.environ.get('VERIF_TIER', 'quick'))
+    print(json.dumps(r, indent=1))
+    sys.exit(1 if r['fails'] or not r['built'] else 0)
